@@ -214,6 +214,18 @@ def _r13_own_mass(ctx, pkg):
         getters.add("A")
     elif not (isinstance(a, ast.Name) and a.id == "massnumber"):
         ctx.unrec("R13", "Species.A", (SPECIES, 0), "`A` is no longer the alias of the massnumber property: what the templates paste as mass number is not known")
+    # the cache the getter returns when it is set: no other method fills it by a spelling of the species either
+    for mname, m in ci.methods.items():
+        if mname in getters:
+            continue
+        for st in ast.walk(m):
+            if isinstance(st, (ast.Assign, ast.AugAssign)) and any(isinstance(t, ast.Attribute) and t.attr == "_massnumber" for t in (st.targets if isinstance(st, ast.Assign) else [st.target])):
+                keys = [x for x in ast.walk(st.value) if isinstance(x, ast.Attribute) and isinstance(x.value, ast.Name) and x.value.id == "self" and x.attr in NAMELIKE]
+                looked = [c for c in ast.walk(st.value) if (isinstance(c, ast.Call) and isinstance(c.func, ast.Attribute) and c.func.attr == "get" and c.args and c.args[0] in keys)
+                          or (isinstance(c, ast.Subscript) and c.slice in keys)]
+                if looked:
+                    ctx.bad("R13", f"Species.{mname}:mass number cache", (SPECIES, st.lineno), f"`{ast.unparse(st)[:90]}` fills the mass number from a table keyed by a spelling of the species",
+                            expected="the mass number computed from the element counts", found=ast.unparse(looked[0])[:80])
     for gname in sorted(getters):
         fn = ci.methods.get(gname)
         if fn is None:
